@@ -60,12 +60,15 @@ func constSnippet(i int, pos string) []Stmt {
 	case 20: // host modules with scalar / immutable-array values
 		return []Stmt{Def(v("n"), &Import{Name: "nummod"}), Def(v("l"), &Import{Name: "listmod"}),
 			Def(v("a"), &ArrayLit{Elems: []Expr{B("+", I(v("n")), N("1")), B("==", &Index{X: I(v("l")), I: N("0")}, True()), B("==", &Index{X: I(v("l")), I: N("1")}, Undef())}})}
+	case 21: // iterating a builtin module table (a constant shared by all clones)
+		return []Stmt{Def(v("m"), &Import{Name: "math"}), Def(v("a"), N("0")),
+			&ForIn{Key: "k" + pos, Val: "w" + pos, X: I(v("m")), Body: []Stmt{&Assign{LHS: I(v("a")), Op: "+=", RHS: N("1")}}}}
 	}
 	return nil
 }
 
 // NumConstSnippets is the pool size.
-const NumConstSnippets = 21
+const NumConstSnippets = 22
 
 // ConstModules are the source modules available to the consts family.
 func ConstModules() map[string][]Stmt {
